@@ -264,6 +264,95 @@ def _kindtag(spec):
     return spec.partition(":")[0]
 
 
+SEQLIKE = ("sequence", "iterator", "string")
+# integer-indexable `impl Object` blocks of minijinja/src (table C09_INDEXABLE_OBJECTS) -> what in the
+# harness subscripts a value of that type.  A new integer-indexable object must be added here
+# (and to the harness) or the tie is broken.
+INDEXABLE_COVERED = {
+    "filters.rs:GroupTuple": "dv group / group_1 / group_list",
+    "merge_object.rs:MergeSeq": "mg stream (all operand-length vectors) + dv chain_* / add_*",
+    "merge_object.rs:MergeDict": "dv chain_maps / merge_ctx (forwards the key to its operands; engine rule)",
+    "object.rs:$vec_type<T>": "kinds L, D (Vec, VecDeque) + dv list_* / batch / sort …",
+    "object.rs:[T; N]": "kind A",
+    "tuple.rs:Tuple": "kind P + dv items_pair / zip_pair / add_t_t",
+}
+
+
+def _key_int(spec):
+    """Python index for a key spec: ints, bools, and (engine rule) integral floats"""
+    ok, v = _spec_int(spec, False)
+    if ok:
+        return v
+    if spec.startswith("f:"):
+        import struct
+        x = struct.unpack("<d", struct.pack("<Q", int(spec[2:])))[0]
+        if x == x and abs(x) < 2**62 and x == int(x):
+            return int(x)
+    return None
+
+
+def derived_case(r, f, case, impl):
+    st = f[0]
+    if st == "mg":
+        lens = [int(x) for x in f[1].split(",") if x != ""]
+        r.hist["mg_operands"][str(len(lens))] += 1
+        r.hist["mg_empty_head"]["yes" if lens and lens[0] == 0 and sum(lens) > 0 else "no"] += 1
+        r.count(case, sum(lens) > 0)
+        i = _key_int(f[4])
+        if i is None:
+            return
+        flat = list(range(sum(lens)))
+        try:
+            want = "elem:%d" % flat[i]
+        except IndexError:
+            want = "undef"
+        if impl != want:
+            r.oracle_failure(case, f"engine returned {impl}, Python's list(chain(...))[i] is {want}", "mg:" + f[3])
+        return
+    parts = impl.split("~~")
+    if len(parts) != 4:
+        r.oracle_failure(case, "malformed result " + impl[:80], "derived:malformed")
+        return
+    lhs, rhs, kind, mat = parts
+    ident = f[3] if st == "dv" else f[2]
+    r.hist["derived_kind"][kind.split("|")[0][:20]] += 1
+    r.hist["derived_id"][ident] += 1
+    r.count(case, not lhs.startswith("err") and lhs != "undef")
+    if kind not in SEQLIKE or mat.startswith("err:"):
+        r.hist["oracle"]["engine-rule (not a Python sequence)"] += 1
+        return
+    items = [] if mat == "" else mat.split(" ¦ ")
+    if st == "dv":
+        i = _key_int(f[4])
+        if f[2] == "apiidx":
+            i = int(f[4][2:])
+        if i is None:
+            # law only: x[k] == (x|list)[k]
+            if lhs != rhs:
+                r.oracle_failure(case, f"x[k] is {lhs[:80]} but (x|list)[k] is {rhs[:80]}", "dv:law:" + ident)
+            return
+        try:
+            want = items[i]
+        except IndexError:
+            want = "undef"
+        r.hist["oracle"]["python"] += 1
+        if lhs != want or (rhs != want and f[2] != "apiidx"):
+            r.oracle_failure(case, f"x[k] is {lhs[:80]}, (x|list)[k] is {rhs[:80]}, Python's list(x)[k] is {want[:80]}", "dv:" + ident + ":" + f[2])
+    else:
+        ia, ib, ic = _spec_int(f[3], True), _spec_int(f[4], True), _spec_int(f[5], True)
+        if not (ia[0] and ib[0] and ic[0]):
+            if lhs != rhs:
+                r.oracle_failure(case, f"x[a:b:c] gives {lhs[:80]} but (x|list)[a:b:c] gives {rhs[:80]}", "ds:law:" + ident)
+            return
+        if ic[1] == 0:
+            want = ZERO_STEP
+        else:
+            want = " ¦ ".join(items[slice(ia[1], ib[1], ic[1])])
+        r.hist["oracle"]["python"] += 1
+        if lhs != want or rhs != want:
+            r.oracle_failure(case, f"x[a:b:c] gives {lhs[:80]}, (x|list)[a:b:c] gives {rhs[:80]}, Python selects {want[:80]}", "ds:" + ident)
+
+
 def glue_case(r, f, case, impl, mline):
     st = f[0]
     r.hist["stream"][st] += 1
@@ -273,6 +362,14 @@ def glue_case(r, f, case, impl, mline):
         m = parts[1] if len(parts) > 1 else None
     if impl == "panic":
         r.oracle_failure(case, "the engine panicked", "panic")
+    if st in ("dv", "ds"):
+        derived_case(r, f, case, impl)
+        return
+    if st == "mg":
+        if m is not None and impl != m:
+            r.model_disagreement(case, impl, m)
+        derived_case(r, f, case, impl)
+        return
     if st == "meta":
         r.hist["meta_relation"][f[1]] += 1
         r.hist["kind"][f[2]] += 1
@@ -345,7 +442,12 @@ def run(r):
     r.assumptions[1] = ("bounds that are not integers (floats, strings, undefined, ...) follow the engine's conversion rule "
                         "(integral floats act as integers, the rest is an InvalidOperation error) - Python raises TypeError for all of them")
     r.assumptions.append("map keys in the tie are booleans, integers in i64 and strings (the Ord/Eq of arbitrary Values is C07's)")
-    r.regen_tables(["C09_SLICE_DISPATCH", "C09_SLICE_PRELUDE", "C09_INT_CONVERSION", "C09_GET_ITEM", "C09_VM_SUBSCRIPT", "C09_KINDS"])
+    r.regen_tables(["C09_INDEXABLE_OBJECTS", "C09_SLICE_DISPATCH", "C09_SLICE_PRELUDE", "C09_INT_CONVERSION", "C09_GET_ITEM", "C09_VM_SUBSCRIPT", "C09_KINDS"])
+    idx_objs = (r.extra.get("tables") or {}).get("C09_INDEXABLE_OBJECTS") or []
+    for name, how in idx_objs:
+        if how == "int" and name not in INDEXABLE_COVERED:
+            r.broken.append(f"integer-indexable object `{name}` (impl Object with an integer-key get_value) is not covered by the C09 harness kinds")
+    r.extra["indexable_objects_covered"] = {n: INDEXABLE_COVERED.get(n) for n, h in idx_objs if h == "int"}
     r.lean_prove("MJ.Props.C09", "MJ/Audit/C09.lean", extra_targets=["drive_c09"])
     exe = r.cargo_build("c09")
     if exe is None:
@@ -364,7 +466,7 @@ def run(r):
     for i, line in enumerate(lines):
         case, impl = line.split("\t")
         f = case.split()
-        if f[0] in ("gs", "gi", "ga", "long", "meta"):
+        if f[0] in ("gs", "gi", "ga", "long", "meta", "mg", "dv", "ds"):
             glue_case(r, f, case, impl, model[i] if model is not None else None)
             continue
         nontrivial = f[1] not in ("undef", "none") and f[2] != "0" and not (f[0] == "chain" and impl in ("undef", "list:", "str:", "tuple:", "bytes:"))
